@@ -181,6 +181,7 @@ def run(ck):
     ck.count("graphs", len(cases), nontriv, sample={"graph": cases[len(cases) // 3][1], "impl": a[len(cases) // 3][:300], "model": b[len(cases) // 3]})
     spellings(ck)
     shadowed(ck)
+    broken_neighbours(ck)
     return ck.finish(extra_cov={"exhaustive": True}, **FINISH)
 
 
@@ -292,6 +293,40 @@ def shadowed(ck):
         if any(("/inc/" + sp) in files and (f.rsplit("/", 1)[0] + "/" + sp) in files and not f.startswith("/inc/") for f in order for sp in [x for x in cases[exps.index((files, tags, link, order))][f]]):
             nshadow += 1
     ck.count("shadowed_includes", len(cases), {json.dumps(c, sort_keys=True) for c in cases}, sample={"files": exps[0][0]}, with_a_spelling_in_both_places=nshadow)
+
+
+def broken_neighbours(ck):
+    """an include statement next to a syntax error (a stray `;` behind it, a statement in front that lacks its `;`, a block around it
+    that is never closed, another include glued to it): it still gets its link if it resolves and its not-found diagnostic if not"""
+    inc_ok, inc_no = 'include "a.td"', 'include "missing.td"'
+    shapes = [("alone", "%s\n"), ("stray-semicolon", "%s;\n"), ("after-a-statement-without-semicolon", "class Y %s\n"), ("in-an-unclosed-let", "let x = 1 in {\n%s\n"),
+              ("in-an-unclosed-foreach", "foreach i = [1] in {\n%s"), ("before-a-stray-brace", "%s }\nclass Z;\n"), ("before-junk", "%s ) ) class Z;\n"),
+              ("after-junk", ") %s\nclass Z;\n"), ("in-an-unclosed-defset", "defset list<A> s = {\n%s\n"), ("behind-an-unterminated-def", "def d : A {\n%s\n"),
+              ("in-a-disabled-then-enabled-region", "#ifdef NOPE\n#else\n%s;\n#endif\n"), ("no-final-newline-stray", "%s;")]
+    cases = []
+    for name, shape in shapes:
+        cases.append((name + "/missing", shape % inc_no, 0, 1))
+        cases.append((name + "/resolves", shape % inc_ok, 1, 0))
+        cases.append((name + "/both", shape % (inc_no + "\n" + inc_ok), 1, 1))
+        cases.append((name + "/both-glued", shape % (inc_ok + " " + inc_no), 1, 1))
+    lines = []
+    for name, text, _, _ in cases:
+        files = {"/w/main.td": "class A;\n" + text, "/w/a.td": "class FromA;\n"}
+        lines.append("ws " + json.dumps({"files": files, "root": "/w/main.td", "queries": [["diagnostics"], ["document_link", "/w/main.td"]]}))
+    outs = core.impl(lines, tag="bn16")
+    for (name, text, nlinks, nmissing), o in zip(cases, outs):
+        case = {"files": {"/w/main.td": "class A;\n" + text, "/w/a.td": "class FromA;\n"}, "root": "/w/main.td", "include_dir": None}
+        try:
+            ans = json.loads(o)
+        except Exception:
+            ck.fail(["C16", "broken-neighbour", "abort"], "workspace aborts: %s" % o[:80], case, o[:200], "answers")
+            continue
+        nf = [d for f, ds in ans[0] if f == "/w/main.td" for d in ds if "missing.td" in d[3]]
+        links = [x for x in (ans[1] or []) if x[2] == "/w/a.td"]
+        if len(nf) != nmissing or len(links) != nlinks or len(ans[1] or []) != nlinks:
+            ck.fail(["C16", "broken-neighbour", name.split("/")[0]], "include statements next to a syntax error (%s): %d not-found diagnostics and %d links for %d includes that resolve nowhere and %d that resolve"
+                    % (name, len(nf), len(ans[1] or []), nmissing, nlinks), case, json.dumps([nf, ans[1]])[:300], "a diagnostic per unresolved include, a link per resolved one")
+    ck.count("broken_neighbours", len(cases), {c[0] for c in cases}, sample={"text": cases[1][1]})
 
 
 def reach(res):
